@@ -330,6 +330,58 @@ fn smt_cases(em: &mut Emitter, rng: &mut Rng, thorough: bool) -> u64 {
             return 0;
         }
     };
+    // directed: a key whose own leaf is empty but whose lower elements equal the leaf index of an
+    // occupied leaf; the empty value into the empty leaf, a get, an insertion and the removal
+    for j in 0..3usize {
+        for rep in 0..(if thorough { 4 } else { 1 }) {
+            let a3 = if rep % 2 == 0 { 42 + j as u64 } else { rng.felt() };
+            let mut smt = Smt::new();
+            let occupied = RpoDigest::new([Felt::new(101), Felt::new(102), Felt::new(103), Felt::new(a3)]);
+            smt.insert(occupied, [Felt::new(1), Felt::new(2), Felt::new(3), Felt::new(4)]);
+            if rep >= 2 {
+                smt.insert(RpoDigest::new([Felt::new(5), Felt::new(a3), Felt::new(7), Felt::new(a3.wrapping_add(9) % Felt::MODULUS)]), [Felt::new(9); 4]);
+            }
+            let mut ke = [Felt::new(1), Felt::new(12), Felt::new(3), Felt::new((a3 ^ 0x5555) % Felt::MODULUS)];
+            ke[j] = Felt::new(a3);
+            let key = RpoDigest::new(ke);
+            let v: Word = [Felt::new(77), Felt::new(0), Felt::new(78), Felt::new(79)];
+            for (opname, value) in [("set-empty", Some([ZERO; 4])), ("get", None), ("set", Some(v)), ("get", None), ("remove", Some([ZERO; 4])), ("get", None)] {
+                let (store, map) = smt_advice(&smt);
+                let (p, st, want): (&vm_core::Program, Vec<u64>, Vec<u64>) = match value {
+                    Some(val) => {
+                        let mut st: Vec<u64> = word_top_first(&val);
+                        st.extend(key.as_elements().iter().rev().map(|f| f.as_int()));
+                        st.extend(word_top_first(&smt.root().into()));
+                        st.push(9);
+                        let old = smt.insert(key, val);
+                        let mut want = word_top_first(&old);
+                        want.extend(word_top_first(&smt.root().into()));
+                        want.push(9);
+                        (&pset, st, want)
+                    }
+                    None => {
+                        let mut st: Vec<u64> = key.as_elements().iter().rev().map(|f| f.as_int()).collect();
+                        st.extend(word_top_first(&smt.root().into()));
+                        st.push(9);
+                        let mut want = word_top_first(&smt.get_value(&key));
+                        want.extend(word_top_first(&smt.root().into()));
+                        want.push(9);
+                        (&pget, st, want)
+                    }
+                };
+                let run = run_impl(p, &st, host(&[], Some(store), map), Lies::default(), None, "");
+                let got = parse_stack(&run.answer);
+                if !run.ok || got.len() < want.len() || got[..want.len()] != want[..] {
+                    em.oracle_failures.push(format!(
+                        "C18 smt::{} on a key whose element {} equals the leaf index {} of an occupied leaf differs from the native Smt: got {} want {:?}",
+                        opname, j, a3, run.answer, want
+                    ));
+                }
+                replay(em, p, &st, &run, "");
+                n += 1;
+            }
+        }
+    }
     let nseq = if thorough { 40 } else { 6 };
     for seq in 0..nseq {
         let mut smt = Smt::new();
@@ -348,6 +400,21 @@ fn smt_cases(em: &mut Emitter, rng: &mut Rng, thorough: bool) -> u64 {
                 continue;
             }
             keys.push(RpoDigest::new([Felt::new(rng.felt()), Felt::new(rng.felt()), Felt::new(rng.felt()), Felt::new(msb)]));
+        }
+        // index confusions: the lower key elements of some keys equal the leaf index (element 3) of
+        // other keys of the universe, so that a procedure reading the wrong key element as the leaf
+        // index lands on an occupied / different leaf
+        let msbs: Vec<u64> = keys.iter().map(|d| d.as_elements()[3].as_int()).collect();
+        for k in 0..keys.len() {
+            let e = keys[k].as_elements().to_vec();
+            let mut ne = [e[0], e[1], e[2], e[3]];
+            for j in 0..3 {
+                if rng.chance(1, 2) {
+                    let other = msbs[(k + 1 + rng.below(msbs.len() as u64 - 1) as usize) % msbs.len()];
+                    ne[j] = Felt::new(other);
+                }
+            }
+            keys[k] = RpoDigest::new(ne);
         }
         let steps = if thorough { 14 } else { 8 };
         let mut chain = String::from("use.std::collections::smt\nbegin\n");
